@@ -5,4 +5,14 @@ TRUSTED_BASE = ['model of radsrv/replyh/sendrq/clientwr in coq/Model/Proxy.v (ha
 ASSUMPTIONS = ['sequential semantics (one handler at a time); UDP/TCP peers']
 RULE = 'random configurations (through the real parser) and histories of requests from several clients, writer passes, signed/corrupted replies; distinct = distinct implementation observation lines'
 def generate(rng, tier):
-    return pipeline.cases(rng, 1500 if tier == 'thorough' else 60, nops=16)
+    def mod(rng, cfg):
+        # exercise User-Name restoration and multi-client multiplexing
+        for c in cfg.clients:
+            if rng.random() < 0.5:
+                c.rwuser = rng.choice([(r'^(.*)$', r'\1.inner'), (r'^([^@]*)@(.*)$', r'\1+x@\2'), (r'^(.*)@(.*)$', r'\1@\2')])
+            c.dupint = rng.choice([None, 1, 2, 10])
+        for r in cfg.realms:
+            if not r.srv:
+                r.srv = [0]
+    n = 1200 if tier == 'thorough' else 50
+    return pipeline.guided_cases(rng, n, pipeline.exchange_history, 'xchg', cfgmod=mod) + pipeline.cases(rng, n // 2, nops=16)
